@@ -2146,6 +2146,16 @@ pub mod crash {
             _ => "a fatal signal",
         };
         let (p, f) = token();
+        let tendril_prop = matches!(prop(), "C11" | "C12");
+        if p == 0 && !tendril_prop {
+            // outside a case: not attributable to the code under test
+            raw_print("INCONCLUSIVE property=");
+            raw_print(prop());
+            raw_print(" the checking process was killed by ");
+            raw_print(name);
+            raw_print(" outside a generated case\n");
+            unsafe { libc::_exit(2) }
+        }
         if p == 0 {
             raw_print("VIOLATION property=");
             raw_print(prop());
@@ -2172,11 +2182,25 @@ pub mod crash {
                 }
             }
         }
+        if f == 0 {
+            raw_print(&format!(
+                "VIOLATION property={} replay=none\n  what: the process was killed by {} while executing case #{} of an enumerated part of the check (the code under test crashed, aborted, or exhausted the address-space limit)\n",
+                prop(),
+                name,
+                p - 1
+            ));
+            unsafe { libc::_exit(1) }
+        }
         raw_print(&format!(
-            "VIOLATION property={} replay={}\n  what: the process was killed by {} while executing this case (memory unsafety reached through the safe API)\n",
+            "VIOLATION property={} replay={}\n  what: the process was killed by {} while executing this case ({})\n",
             prop(),
             path,
-            name
+            name,
+            if tendril_prop {
+                "memory unsafety reached through the safe API"
+            } else {
+                "the code under test crashed, aborted, or exhausted the address-space limit of the checking process"
+            }
         ));
         unsafe { libc::_exit(1) }
     }
